@@ -11,16 +11,16 @@ from specs.inbound import *
 from specs.api_entry import *
 from specs.session import *
 
-KEEP_HANDLE = ['g_base', '_buffer', 'g_dispatched', 'g_firing', 'id', 'IDLE', 'CONNECTING', 'CONNECTED', 'protocol', 'factory', 'addr', 'transport',
+KEEP_HANDLE = ['g_base', 'g_addr', '_buffer', 'g_dispatched', 'g_firing', 'id', 'IDLE', 'CONNECTING', 'CONNECTED', 'protocol', 'factory', 'addr', 'transport',
                '_pingReq', 'queuePublishTx', 'windowPublish', 'windowPubRelease', 'windowPubRx', 'windowSubscribe',
                'windowUnsubscribe', '_window', '_initialT', '_bandwith', '_factor', '_version', '_cleanStart',
                'onPublish', 'onDisconnection', 'onMqttConnectionMade', 'pdu', 'tr_closes']
-KEEP_PROCESS = ['g_base', '_buffer', 'g_firing', 'id', 'IDLE', 'CONNECTING', 'CONNECTED', 'protocol', 'factory', 'addr', 'transport',
+KEEP_PROCESS = ['g_base', 'g_addr', '_buffer', 'g_firing', 'id', 'IDLE', 'CONNECTING', 'CONNECTED', 'protocol', 'factory', 'addr', 'transport',
                 '_pingReq', 'queuePublishTx', 'windowPublish', 'windowPubRelease', 'windowPubRx', 'windowSubscribe',
                 'windowUnsubscribe', '_window', '_initialT', '_bandwith', '_factor', '_version', '_cleanStart',
                 'onPublish', 'onDisconnection', 'onMqttConnectionMade', 'pdu', 'tr_closes']
 
-KEEP_RECV = ['g_base', 'g_firing', 'id', 'IDLE', 'CONNECTING', 'CONNECTED', 'protocol', 'factory', 'addr', 'transport',
+KEEP_RECV = ['g_base', 'g_addr', 'g_firing', 'id', 'IDLE', 'CONNECTING', 'CONNECTED', 'protocol', 'factory', 'addr', 'transport',
              '_pingReq', 'queuePublishTx', 'windowPublish', 'windowPubRelease', 'windowPubRx', 'windowSubscribe',
              'windowUnsubscribe', '_window', '_initialT', '_bandwith', '_factor', '_version', '_cleanStart',
              'onPublish', 'onDisconnection', 'onMqttConnectionMade', 'pdu', 'tr_closes']
@@ -312,3 +312,9 @@ def _(self: Ref['mqtt.client.pubsubs.MQTTProtocol'], packet: Bytes):
     ensures(implies(t == 0 or t == 1 or t == 8 or t == 10 or t == 12 or t == 14 or t == 15,
                     out(self) == old(out(self)) and cb_unchanged() and unchanged(self.state)
                     and fired_stay_fired() and no_new_fired()))
+
+
+# C19: a packet object built for an inbound PUBLISH belongs to the address of the protocol that received it
+@ghost_at('mqtt.client.base.MQTTBaseProtocol._handlePUBLISH', after='response = PUBLISH()')
+def _():
+    gset(response.g_addr, self.addr)
